@@ -196,8 +196,50 @@ LawC18(cs) ==
          r2 == RunLayers(inside, RootAt(cs.root), [i \in DOMAIN cs.inputs |-> Abs(W, cs.inputs[i])], cs.skip, <<>>)
      IN r2.ok = r.ok /\ (r.ok => r2.v.outs = r.v.outs)
 
-Cases == IF Family = "C03" THEN CasesC03 ELSE CasesC18
-Law(cs) == IF Family = "C03" THEN LawC03(cs) ELSE LawC18(cs)
+---------------------------------------------------------------------------
+(* C04: the format a layer is written in is not an input of any rule.       *)
+(* Layer chains a <- a.b (<- a.b.c) whose comparisons involve numbers:      *)
+(* $match / $delete patterns with integers and floats, $repeat counts,       *)
+(* same-value overrides, 64-bit extremes, doubles needing 17 digits,         *)
+(* denormals.  Every chain is written under ALL 3^n assignments of           *)
+(* json / yaml / toml to its layers; the expected result is one and the      *)
+(* same for every assignment (FormatFree).                                   *)
+Mk2(k1, v1, k2, v2) == M(k1 :> v1 @@ k2 :> v2)
+Mk3(k1, v1, k2, v2, k3, v3) == M(k1 :> v1 @@ k2 :> v2 @@ k3 :> v3)
+Item(id, v) == Mk2("id", id, "v", S(v))
+Big == I("9223372036854775807")
+Base04 == M("n" :> I("1") @@ "big" :> Big @@ "min" :> I("-9223372036854775808") @@ "f" :> F("0.1")
+            @@ "tiny" :> F("5e-324") @@ "huge" :> F("1.7976931348623157e+308") @@ "sum" :> F("0.30000000000000004")
+            @@ "list" :> L(<<Item(I("1"), "a"), Item(I("2147483648"), "b"), Item(F("2.5"), "c"), Item(Big, "d")>>)
+            @@ "name" :> S("x"))
+Uppers04 == {
+  Single("list", L(<<Mk2("$match", Single("id", I("2147483648")), "v", S("B"))>>)),
+  Single("list", L(<<Mk2("$match", Single("id", Big), "v", S("D"))>>)),
+  Single("list", L(<<Mk2("$match", Single("id", F("2.5")), "v", S("C"))>>)),
+  Single("list", L(<<Single("$delete", Single("id", I("1")))>>)),
+  Single("list", L(<<Single("$delete", Single("id", F("2.5")))>>)),
+  Single("list", L(<<Single("$delete", Single("id", I("3")))>>)),
+  Single("n", I("1")), Single("big", Big), Single("f", F("0.1")), Single("tiny", F("5e-324")), Single("sum", F("0.30000000000000004")),
+  Single("min", I("-9223372036854775808")), Single("huge", F("1.7976931348623157e+308")),
+  Single("n", I("2")), Single("f", F("0.10000000000000002")), Single("big", I("9223372036854775806")),
+  Mk2("$repeat", I("2"), "i", S("$repeat")), Mk2("$match", Single("big", Big), "hit", True), Mk2("$match", Single("f", F("0.1")), "hit", True),
+  Mk2("$match", Single("n", F("1.5")), "hit", True)
+}
+Thirds04 == { Single("$repeat", I("3")), Single("n", I("2")), Single("list", L(<<Single("$delete", Single("id", I("2147483648")))>>)) }
+Fmts04 == {"json", "yaml", "toml"}
+Chain2(u, e1, e2) == FsOf(<< <<"a", e1, <<Base04>> >>, <<"a.b", e2, <<u>> >> >>, <<>>)
+Chain3(u, t, e1, e2, e3) == FsOf(<< <<"a", e1, <<Base04>> >>, <<"a.b", e2, <<u>> >>, <<"a.b.c", e3, <<t>> >> >>, <<>>)
+CasesC04 ==
+  {Case(Chain2(u, e1, e2), <<"a.b." \o e2>>, FALSE, "/", "two", <<"free", Chain2(u, "json", "json"), <<"a.b.json">> >>)
+     : u \in Uppers04, e1 \in Fmts04, e2 \in Fmts04}
+  \cup {Case(Chain3(u, t, e1, e2, e3), <<"a.b.c." \o e3>>, FALSE, "/", "three", <<"free", Chain3(u, t, "json", "json", "json"), <<"a.b.c.json">> >>)
+     : u \in {x \in Uppers04 : ~(IsMap(x) /\ Has(x, "$match"))}, t \in Thirds04, e1 \in Fmts04, e2 \in Fmts04, e3 \in Fmts04}
+StripRun(r) == IF r.ok THEN [ok |-> TRUE, outs |-> r.v.outs] ELSE [ok |-> FALSE, outs |-> <<>>]
+LawC04(cs) ==   \* FormatFree: the all-JSON writing of the same chain gives the same result
+  StripRun(RunOf(cs)) = StripRun(RunLayers(cs.expect[2], RootAt("/"), [i \in DOMAIN cs.expect[3] |-> Abs(W, cs.expect[3][i])], FALSE, <<>>))
+
+Cases == CASE Family = "C03" -> CasesC03 [] Family = "C18" -> CasesC18 [] Family = "C04" -> CasesC04
+Law(cs) == CASE Family = "C03" -> LawC03(cs) [] Family = "C18" -> LawC18(cs) [] Family = "C04" -> LawC04(cs)
 
 Emit(cs) ==
   LET r == RunOf(cs) IN
